@@ -15,6 +15,7 @@ import (
 	"verif/explore"
 	"verif/sim"
 	"verif/vrt"
+	"verif/vrt/vcontext"
 )
 
 // ---------------------------------------------------------------------------
@@ -113,8 +114,66 @@ func doOp(w *world, kind, table, key string) error {
 	return errors.New("unknown kind")
 }
 
+// c01StaleParentUnits: hbase:meta still holds the (offline) row of a split parent whose
+// key range has meanwhile been covered by other regions - a split followed by a merge before
+// the catalog janitor has removed the parent (HBASE-20182). The parent row sorts between the
+// live rows, so the client's one-row reversed lookup of a key at or above the parent's start
+// key lands on it. first: the key touched first (cold cache).
+func c01StaleParentUnits() []*explore.Unit {
+	var units []*explore.Unit
+	for _, first := range []string{"n", "a", "r", "m"} {
+		first := first
+		var errs []error
+		var w *world
+		u := &explore.Unit{Name: fmt.Sprintf("wire|meta holds the offline row of a split parent [m,)|live [,r) [r,)|first key %q", first), Bound: 0, Opt: vrt.Options{MaxSteps: 60000}}
+		u.Body = func() {
+			errs = nil
+			cl := sim.NewCluster("rs0:1")
+			cl.AddTable("t", []string{"r"}, []string{"rs1:1", "rs2:1"})
+			cl.StaleRows = append(cl.StaleRows, &sim.Region{Table: "t", Start: []byte("m"), ID: 1, Server: "rs2:1", Offline: true})
+			w = newWorldW(cl, gohbase.FlushInterval(0), gohbase.RpcQueueSize(1))
+			for _, k := range []string{first, "n", "a", "z", "m"} {
+				ctx, cancel := vcontext.WithTimeout(context.Background(), 10*time.Minute)
+				g, _ := hrpc.NewGetStr(ctx, "t", k)
+				r, err := w.client.Get(g)
+				cancel()
+				if err == nil && (len(r.Cells) != 1 || string(r.Cells[0].Value) != "v:"+k) {
+					err = fmt.Errorf("wrong value for %q", k)
+				}
+				if err != nil {
+					errs = append(errs, fmt.Errorf("get %q: %v", k, err))
+				}
+			}
+			w.client.Close()
+			vrt.Sleep(10 * time.Minute)
+			for _, c := range cl.WConns {
+				c.Server.Stop = true
+			}
+		}
+		u.Check = func(res *vrt.Result) *explore.Finding {
+			if f := baseFinding(res); f != nil {
+				return f
+			}
+			if res.Deadlock {
+				return &explore.Finding{Class: "request-blocked", Msg: fmt.Sprintf("%v", res.Blocked)}
+			}
+			if len(errs) > 0 {
+				return &explore.Finding{Class: "key-never-resolved: hbase:meta holds the offline row of a split parent", Msg: fmt.Sprintf("%v (after 10 minutes of lookups; meta scans: %d)", errs, len(w.cl.MetaScans))}
+			}
+			for _, a := range w.cl.Attempts {
+				if a.Misrouted() {
+					return &explore.Finding{Class: "request-sent-to-region-or-server-not-owning-the-key", Msg: fmt.Sprintf("%+v", a)}
+				}
+			}
+			return nil
+		}
+		units = append(units, u)
+	}
+	return units
+}
+
 func c01WUnits(thorough bool) []*explore.Unit {
-	units := cacheRegionsUnits(thorough)
+	units := append(cacheRegionsUnits(thorough), c01StaleParentUnits()...)
 	bounds := []string{"+", ",", "-", "b", "b\x00"}
 	var layouts [][]string
 	layouts = append(layouts, nil)
